@@ -1399,6 +1399,39 @@ func (c *Ctx) specCall(env *SpecEnv, e *SExpr) Value {
 				return Arith("+", sym, c.idx(int64(n)))
 			}
 			return UntypedInt{V: big.NewInt(int64(n))}
+		case "stepcalls":
+			// stepcalls(Name): number of matching calls made in the current step - inside a cut loop, the iteration being
+			// judged (records after the loop head); elsewhere the whole log.  Meant for `calls` clauses, which are judged
+			// per iteration; not subject to the counted-calls rule.
+			name := e.Args[1].Name
+			from := 0
+			for i := len(env.st.Loops) - 1; i >= 0; i-- {
+				if al := env.st.Loops[i]; al.L != nil && al.Frame == len(env.st.Frames) {
+					from = al.LogLen
+					break
+				}
+			}
+			n := 0
+			var sym *Term
+			for i := from; i < len(env.st.CallLog); i++ {
+				r := env.st.CallLog[i]
+				if callMatches(r.Callee, name) {
+					if r.Cond != nil {
+						one := Ite(r.Cond, c.idx(1), c.idx(0))
+						if sym == nil {
+							sym = one
+						} else {
+							sym = Arith("+", sym, one)
+						}
+						continue
+					}
+					n++
+				}
+			}
+			if sym != nil {
+				return Arith("+", sym, c.idx(int64(n)))
+			}
+			return UntypedInt{V: big.NewInt(int64(n))}
 		case "isNaN":
 			evalArgs()
 			t := args[0].(*Term)
